@@ -100,6 +100,7 @@ func NewVC(fn string) *VC {
 	allocEpoch = map[string]int{}
 	memEpoch = map[string]int{}
 	memAllocOf = map[string]*Term{}
+	privObjKeys = map[string]bool{}
 	curEpoch = 0
 	return vc
 }
